@@ -55,6 +55,26 @@ struct Outline {
     header: String,
     original: String,
     call: String,
+    /// place expressions of the origin that the helper receives under a parameter name
+    /// (`self.app_entries => entries`): applied to the fragment's tokens before it becomes the helper body
+    #[serde(default)]
+    subst: Vec<(String, String)>,
+}
+
+/// token-text substitution with identifier boundaries (used by Outline::subst)
+fn subst_norm(text: &str, from: &str, to: &str) -> String {
+    let mut out = String::new();
+    let mut rest = text;
+    let is_id = |c: char| c.is_alphanumeric() || c == '_';
+    while let Some(p) = rest.find(from) {
+        let before_ok = rest[..p].chars().last().map_or(true, |c| !is_id(c) && c != '.');
+        let after_ok = rest[p + from.len()..].chars().next().map_or(true, |c| !is_id(c));
+        out.push_str(&rest[..p]);
+        if before_ok && after_ok { out.push_str(to); } else { out.push_str(from); }
+        rest = &rest[p + from.len()..];
+    }
+    out.push_str(rest);
+    out
 }
 
 #[derive(Deserialize, Clone)]
@@ -313,6 +333,9 @@ struct Rewriter<'a> {
     intoiter_params: Vec<String>,
     fmt_helpers: Vec<(String, String)>,
     pinned: Vec<String>,
+    /// R32: `let vx_pred_k = <closure>;` statements to be placed before the statement being visited
+    pending_lets: Vec<Stmt>,
+    pred_counter: usize,
 }
 
 fn line_of<T: syn::spanned::Spanned>(t: &T) -> usize {
@@ -346,6 +369,26 @@ impl<'a> Rewriter<'a> {
             return Some(parse_quote!(()));
         }
         match name.as_str() {
+            "vec" => {
+                // R31: `vec![a, b, c]` -> a block pushing a, b, c onto a new Vec (same value, same evaluation order)
+                let args: syn::punctuated::Punctuated<Expr, syn::Token![,]> =
+                    match m.parse_body_with(syn::punctuated::Punctuated::parse_terminated) {
+                        Ok(a) => a,
+                        Err(e) => {
+                            self.errors.push(format!("unsupported-construct: vec! form at line {}: {}", line, e));
+                            return None;
+                        }
+                    };
+                let mut elems: Vec<Expr> = args.into_iter().collect();
+                if elems.is_empty() {
+                    return None; // `vec![]` is accepted as it stands
+                }
+                for a in elems.iter_mut() {
+                    self.visit_expr_mut(a);
+                }
+                self.logr("R31", line, format!("vec![..] with {} element(s) -> Vec::new() + push in order", elems.len()));
+                return Some(parse_quote!({ let mut vx_v = Vec::new(); #(vx_v.push(#elems);)* vx_v }));
+            }
             "format" => {
                 let args: syn::punctuated::Punctuated<Expr, syn::Token![,]> =
                     match m.parse_body_with(syn::punctuated::Punctuated::parse_terminated) {
@@ -706,11 +749,19 @@ impl<'a> VisitMut for Rewriter<'a> {
             }
         }
         // recurse first so that hints bind to the innermost matching statement
-        visit_mut::visit_block_mut(self, b);
+        let outer_pending = std::mem::take(&mut self.pending_lets);
+        let mut hoisted: Vec<Vec<Stmt>> = vec![];
+        for st in b.stmts.iter_mut() {
+            self.visit_stmt_mut(st);
+            hoisted.push(std::mem::take(&mut self.pending_lets));
+        }
+        self.pending_lets = outer_pending;
+        let mut hoisted = hoisted.into_iter();
         // R2: drop tracing statements
         let mut out: Vec<Stmt> = Vec::new();
         let stmts = std::mem::take(&mut b.stmts);
         for s in stmts {
+            out.extend(hoisted.next().unwrap_or_default());
             if let Stmt::Item(Item::Use(_)) = &s {
                 let l = line_of(&s);
                 self.logr("R0", l, "`use` item inside a body dropped (names resolve to the prelude)");
@@ -883,6 +934,22 @@ impl<'a> VisitMut for Rewriter<'a> {
                 let v = mc.args.first().unwrap().clone();
                 self.logr("R9", line, "Pin::set on a pin_mut! binding -> assignment");
                 *e = parse_quote!(#recv = #v);
+            }
+            Expr::MethodCall(mc) if mc.method == "find" && mc.args.len() == 1
+                && matches!(&*mc.receiver, Expr::MethodCall(im) if im.method == "iter_mut" && im.args.is_empty())
+                && self.expr_map.iter().any(|(f, _)| f == "__adapter_iter_mut_find") =>
+            {
+                // R32: `X.iter_mut().find(pred)` -> the stand-in whose contract is stated over the
+                // predicate's own contract (enabled per group by `@@exprmap __adapter_iter_mut_find => <fn>`)
+                let to = self.expr_map.iter().find(|(f, _)| f == "__adapter_iter_mut_find").map(|(_, t)| t.clone()).unwrap();
+                let f = syn::Ident::new(&to, proc_macro2::Span::call_site());
+                let x = match &*mc.receiver { Expr::MethodCall(im) => im.receiver.clone(), _ => unreachable!() };
+                let c = mc.args.first().unwrap().clone();
+                let pn = syn::Ident::new(&format!("vx_pred{}", self.pred_counter), proc_macro2::Span::call_site());
+                self.pred_counter += 1;
+                self.logr("R32", line, format!("`.iter_mut().find(pred)` -> let {} = pred; {}(&mut .., {}) (predicate named so that proofs can refer to it)", pn, to, pn));
+                self.pending_lets.push(parse_quote!(let #pn = #c;));
+                *e = parse_quote!(#f(&mut #x, #pn));
             }
             Expr::MethodCall(mc) => {
                 // R23: `Enum::Variant` passed as a function value -> the closure it denotes
@@ -1299,6 +1366,8 @@ fn process_fn(
             intoiter_params: vec![],
             fmt_helpers: vec![],
             pinned: vec![],
+            pending_lets: vec![],
+            pred_counter: 0,
         };
         let _ = (&rw.fn_marker, rw.brk_counter);
         rw.intoiter_params = intoiter_params.clone();
@@ -1902,6 +1971,8 @@ fn process_unit(job: &Job, ctx: &Ctx, u: &UnitReq, uidx: usize, vac: bool) -> Un
             intoiter_params: vec![],
             fmt_helpers: vec![],
             pinned: vec![],
+            pending_lets: vec![],
+            pred_counter: 0,
                 };
                 match &mut it {
                     Item::Struct(s) => { rw.visit_fields_mut(&mut s.fields); rw.visit_generics_mut(&mut s.generics); }
@@ -2035,6 +2106,18 @@ fn process_unit(job: &Job, ctx: &Ctx, u: &UnitReq, uidx: usize, vac: bool) -> Un
                                 }
                                 Some(orig) => {
                                     out.rewrites.push(RewriteLog { rule: "R25".into(), line: line_of(&orig), detail: format!("fragment outlined verbatim into helper fn {} (verified against its own contract)", ol.name) });
+                                    let mut orig = orig;
+                                    if !ol.subst.is_empty() {
+                                        let mut t = norm_m(&orig.to_token_stream());
+                                        for (a, b) in &ol.subst {
+                                            t = subst_norm(&t, &norm_str(a).unwrap_or_default(), b);
+                                        }
+                                        match syn::parse_str::<Expr>(&t) {
+                                            Ok(e) => { orig = e; }
+                                            Err(e) => { out.error = Some(format!("outline {} substitution unparsable: {}", ol.name, e)); continue; }
+                                        }
+                                        out.rewrites.push(RewriteLog { rule: "R25".into(), line: 0, detail: format!("helper {} receives {}", ol.name, ol.subst.iter().map(|(a, b)| format!("`{}` as `{}`", a, b)).collect::<Vec<_>>().join(", ")) });
+                                    }
                                     if !vac {
                                         match syn::parse_str::<syn::ItemFn>(&format!("pub {} {{ }}", ol.header)) {
                                             Ok(mut hf) => {
@@ -2111,6 +2194,8 @@ fn process_unit(job: &Job, ctx: &Ctx, u: &UnitReq, uidx: usize, vac: bool) -> Un
             intoiter_params: vec![],
             fmt_helpers: vec![],
             pinned: vec![],
+            pending_lets: vec![],
+            pred_counter: 0,
             };
             rw.visit_generics_mut(&mut im.generics);
             rw.visit_type_mut(&mut im.self_ty);
